@@ -24,6 +24,85 @@ ADAPTORS = re.compile(r"iter::traits::iterator::Iterator::(rev|filter|filter_map
                       r"iter::traits::double_ended::DoubleEndedIterator::|slice::<impl \[T\]>::(sort|reverse|rsplit|rchunks)|Iterator::(last|max|min|nth)")
 
 
+class _LoopSel:
+    """stands for the call that yields the selection result when the search is spelled as a loop"""
+    def __init__(self, local, bb):
+        self.dest = [local]
+        self.args = []
+        self.term = {}
+        self.bb = bb
+
+    def where(self):
+        return "loop"
+
+
+def _loop_search(prog, f):
+    """`let mut sel = None; for r in rules.iter() { if r.evaluate(ctx) { sel = Some(r.target.clone()); break } }`
+    -> (ok, selection pseudo-call, explanation) or None when there is no loop over the rule slice"""
+    nexts = [c for c in f.calls if re.search(r"iter::traits::iterator::Iterator::next$", c.path or "") and "slice::iter::Iter" in (c.full or "")
+             and "rules::Rule" in (c.full or "")]
+    if len(nexts) != 1:
+        return None
+    n = nexts[0]
+    if n.bb not in f.reach_from(f.succ[n.bb]):
+        return None
+    # the iterator is plain slice::iter() of the guard returned by a single rules() call
+    tr = f.trace(op_base(n.args[0]), through_calls=[r"IntoIterator::into_iter$"])
+    chain = [info.path or "" for k, info in tr if k == "call"]
+    tree = et.build(f, n.args[0])
+    paths = [x[2] for x in et.walk(tree) if x[0] == "call"]
+    rules_calls = [x for x in f.calls if re.search(r"^GlobalState::rules$", x.name or "")]
+    plain = any(re.search(r"slice::<impl \[T\]>::iter$", p) for p in paths + chain) and not any(ADAPTORS.search(p) for p in paths + chain) and len(rules_calls) == 1
+    if not plain:
+        return (False, None, "the loop does not run over plain slice::iter() of one rules() guard")
+    from ..flow import discr_branch
+    some_t = none_t = None
+    for (sb, targets, other) in discr_branch(f, n.dest[0]):
+        some_t = targets.get(1, other if 0 in targets else None)
+        none_t = targets.get(0, other if 1 in targets else None)
+    if some_t is None or none_t is None:
+        return (False, None, "the loop's next() result is not matched on")
+    body = f.reach_from([some_t], avoid=[n.bb])
+    ev = [x for x in f.calls if re.search(r"rules::Rule::evaluate$", x.name or "") and x.bb in body]
+    if len(ev) != 1:
+        return (False, None, "the loop body calls Rule::evaluate %d times" % len(ev))
+    br = bool_branch(f, ev[0].dest[0])
+    if len(br) != 1:
+        return (False, None, "the verdict of evaluate() is not branched on exactly once")
+    sb, tt, ft = br[0]
+    hit = f.reach_from([tt], avoid=[n.bb])
+    # on the true edge: Some(<this rule>.target) is stored and the loop is left (no way back to next())
+    stores = []
+    for b in hit:
+        for st in f.stmts(b):
+            if st["k"] == "assign" and st["rv"]["k"] == "agg" and st["rv"].get("variant") == "Some" and op_base(st["rv"]["ops"][0]) is not None:
+                if "f:target" in str(f.trace(op_base(st["rv"]["ops"][0]), through_calls=[r"clone::Clone::clone$", r"ops::deref::Deref::deref$"])):
+                    tracked, _ = flow_forward(f, [st["lhs"][0]], [])
+                    stores.append((b, set(tracked)))
+    leaves = n.bb not in f.reach_from([tt])
+    stays = n.bb in f.reach_from([ft]) and not any(st["k"] == "assign" and st["rv"]["k"] == "agg" and st["rv"].get("variant") == "Some"
+                                                    for b in f.reach_from([ft], avoid=[n.bb]) & body for st in f.stmts(b))
+    if not stores or not leaves or not stays:
+        return (False, None, "true edge stores Some(rule.target): %s, leaves the loop: %s; false edge continues without storing: %s" % (bool(stores), leaves, stays))
+    # the selection variable: assigned None before the loop, the stored Some inside; it is what flows on after the loop
+    sel_local = None
+    for b, tracked in stores:
+        for l in tracked:
+            defs = f.defs.get(l, [])
+            if any(i != "term" and rv["k"] == "agg" and rv.get("variant") == "None" and f.dominates(bb_, n.bb) for (bb_, i, rv) in defs):
+                sel_local = l
+    if sel_local is None:
+        return (False, None, "no selection variable initialised to None before the loop receives the hit")
+    # ... and the value that leaves the block is a copy of it
+    out = sel_local
+    for b in f.reach_from([none_t]):
+        for st in f.stmts(b):
+            if st["k"] == "assign" and len(st["lhs"]) == 1 and st["rv"]["k"] == "use" and op_place(st["rv"]["a"]) == [sel_local] and "Option<core::option::Option<" in f.local_ty_s(st["lhs"][0]):
+                out = st["lhs"][0]
+                break
+    return (True, _LoopSel(out, n.bb), "first hit of evaluate() stores Some(rule.target) in `%s` and breaks; exhausted iterator leaves None" % (f.local_name(sel_local) or "_%d" % sel_local))
+
+
 def run(chk, prog):
     pr = prog.one(r"^process_request$")
     f = prog.body_of(pr)
@@ -37,9 +116,25 @@ def run(chk, prog):
              and "slice::iter::Iter" in (c.full or "")]
     fm = [c for c in picks if re.search(SEL, c.path or "")]
     ok = len(fm) == 1 and len(picks) == 1
-    chk.instance("first-match", where, "process_request selects with exactly one first-hit search (find_map / find) over the rule slice", ok)
-    sel = fm[0] if ok else None
-    if not ok:
+    loop_sel = None
+    if not picks:
+        loop_sel = _loop_search(prog, f)
+    if loop_sel is not None:
+        ok_l, sel, why_l = loop_sel
+        chk.instance("first-match", where, "process_request selects with a `for` loop over the rule slice that stops at the first rule whose "
+                     "evaluate() is true and keeps that rule's target", ok_l, why_l)
+        if not ok_l:
+            chk.finding("first-match", f.key, "loop", "", where,
+                        "the loop over the rule list does not select exactly the first rule whose Rule::evaluate is true and keep its target (%s)" % why_l)
+            sel = None
+        ok = True
+        fm = []
+    else:
+        chk.instance("first-match", where, "process_request selects with exactly one first-hit search (find_map / find) over the rule slice", ok)
+        sel = fm[0] if ok else None
+    if loop_sel is not None:
+        pass
+    elif not ok:
         chk.finding("first-match", f.key, "select", "", where,
                     "process_request no longer selects the connector with a single first-hit search over the rule list (found %s)"
                     % [short(c.path) for c in picks])
